@@ -1682,7 +1682,16 @@ func mergeAttrs(src map[string]*sysl.Attribute, dst map[string]*sysl.Attribute) 
 			dstAttr, dstOK := dst[k].Attribute.(*sysl.Attribute_A)
 			vAttr, vOK := v.Attribute.(*sysl.Attribute_A)
 			if dstOK && vOK {
-				dstAttr.A.Elt = append(dstAttr.A.Elt, vAttr.A.Elt...)
+				// dst[k] may be an attribute object shared with the enclosing path (and so with
+				// every other method under it): build a new array instead of appending in place
+				elts := make([]*sysl.Attribute, 0, len(dstAttr.A.Elt)+len(vAttr.A.Elt))
+				elts = append(elts, dstAttr.A.Elt...)
+				elts = append(elts, vAttr.A.Elt...)
+				dst[k] = &sysl.Attribute{
+					Attribute:      &sysl.Attribute_A{A: &sysl.Attribute_Array{Elt: elts}},
+					SourceContext:  dst[k].SourceContext, //nolint:staticcheck
+					SourceContexts: dst[k].SourceContexts,
+				}
 			} else {
 				dst[k] = v
 			}
